@@ -1,5 +1,6 @@
 import CoapVerif.Lemmas.Block
 import CoapVerif.Lemmas.BlockRecv
+import CoapVerif.Lemmas.BlockCrcv
 /-
 C09 — block-wise transfer: the sender's body arrives intact, once, or the transfer fails explicitly.
 
@@ -171,6 +172,105 @@ example : (srcvStep 4 0 0 none 0 1 0 (List.replicate 16 7) none).2 = SrcvOut.con
 set_option maxRecDepth 8000 in
 /-- early size reduction (fix 0d17941): a 64-byte first block is recorded as 2 blocks of 32 -/
 example : ((srcvStep 4 0 1 none 0 1 2 (List.replicate 64 7) none).1.map (·.recv)) = some [(0, 1)] := by decide
+
+
+/-! ## Layer B, client side: the Block2 receive path (coap_handle_response_get_block), both delivery modes
+
+M = `crcvStep` (Model/BlockCrcv.lean), tied to the real function by the T2 op `crcv`.  The theorems below are about the
+receiver automaton alone, for EVERY sequence of responses (any order, duplicates, losses, any ETag / Content-Format
+on each of them, restarts after an ETag change included) each of which carries the server's slice for its NUM/SZX
+(`Genuine2`); `never_wrong_body_block2` further down removes that hypothesis for a libcoap server.
+Two things a foreign server could do are excluded by `Genuine2` because the C code has no defence against them
+(confirmed on the real function, see design/C09.md): changing SZX in the middle of a transfer (block numbers are
+recorded in mixed units: witness below) and announcing different Size2 values on different blocks while sending
+blocks the client did not ask for (coap_block_build_body is called with THIS response's Size2 and can shrink the
+buffer).  Neither can happen with a libcoap server (`server_block2_genuine`). -/
+
+/-- Block2, single-body AND per-block mode, every response sequence: a body handed to the response handler is exactly
+the server's body with its exact length (single-body); every block handed over is the server's slice at the offset
+announced (per-block, also for random access); a genuine block-wise response is never passed on as a plain one. -/
+theorem never_wrong_body_block2_partial (single : Bool) (cap : Nat) (junk : UInt8) (body : Bytes) (sz : Option Nat)
+    (rs : List Resp) (hsz : ∀ t, sz = some t → t ≤ body.length)
+    (hadm : Admissible2 single cap junk body sz none rs) :
+    ∀ o, o ∈ runCrcv single cap junk none rs →
+      (∀ d l, o = CrcvOut.body d l → single = true ∧ d.take l = body ∧ l = body.length) ∧
+      (∀ off p total nx, o = CrcvOut.block off p total nx →
+        single = false ∧ ∃ k szx, k < nBlocks body.length szx ∧ off = k * chunkSize szx ∧ p = slice body szx k) ∧
+      (∀ off p total, o = CrcvOut.last off p total →
+        single = false ∧ ∃ k szx, k < nBlocks body.length szx ∧ off = k * chunkSize szx ∧ p = slice body szx k) ∧
+      (∀ off p total, o = CrcvOut.randomAccess off p total →
+        ∃ k szx, k < nBlocks body.length szx ∧ off = k * chunkSize szx ∧ p = slice body szx k) ∧
+      (∀ p, o ≠ CrcvOut.plain p) :=
+  runCrcv_sound single cap junk body sz hsz rs none (by intro s hs; cases hs) hadm
+
+/-- At most once, and exact tiling, per lg_crcv lifetime (one step, any consistent state): the reassembled body is
+handed over together with the release of the lg_crcv; in per-block mode a block handed to the handler had not been
+recorded since the lg_crcv was (re-)initialised and is recorded afterwards (a duplicate is answered by `skip`), recorded
+blocks stay recorded, nothing else is ever recorded, and when the transfer completes (either mode) every block of the
+body has been recorded — so the offsets handed over in per-block mode tile the body, each exactly once. -/
+theorem at_most_once_block2_partial (single : Bool) (cap : Nat) (junk : UInt8) (body : Bytes) (sz : Option Nat)
+    (st : Option Crcv) (r : Resp) (num szx : Nat) (hsz : ∀ t, sz = some t → t ≤ body.length)
+    (hst : ∀ s, st = some s → s.initial = false → CrcvInv single cap body sz s)
+    (hg : Genuine2 body sz st r num szx) :
+    let res := crcvStep single cap junk st r
+    (∀ s', res.1 = some s' → s'.initial = false → CrcvInv single cap body sz s') ∧
+    (∀ d l, res.2 = CrcvOut.body d l → res.1 = none) ∧
+    (∀ off p total nx, res.2 = CrcvOut.block off p total nx → ¬ Covers (effRecv st) num) ∧
+    (∀ off p total, res.2 = CrcvOut.last off p total → ¬ Covers (effRecv st) num ∧ res.1 = none) ∧
+    (∀ s', res.1 = some s' → s'.initial = false → ∀ k, Covers s'.recv k ↔
+      (Covers (effRecv st) k ∨ (k = num ∧ (res.2 = CrcvOut.next (num + 1) szx ∨ res.2 = CrcvOut.wait ∨
+        ∃ off p total nx, res.2 = CrcvOut.block off p total nx)))) ∧
+    (res.2.isFinal = true → ∀ k, k < nBlocks body.length szx → k = num ∨ Covers (effRecv st) k) := by
+  intro res
+  have h := crcvStep_spec single cap junk body sz st r num szx res.1 res.2 hsz hst hg rfl
+  exact ⟨fun s' hs hi => (h.inv s' hs hi).1, fun d l hb => (h.dBody d l hb).2.2.2,
+    fun off p total nx hb => (h.dBlock off p total nx hb).2.2.2.1,
+    fun off p total hb => ⟨(h.dLast off p total hb).2.2.2.1, (h.dLast off p total hb).2.2.2.2⟩,
+    h.grow, h.complete⟩
+
+set_option maxRecDepth 100000 in
+/-- non-vacuity: a 100-byte body in 32-byte blocks, ETag on every block, block 1 duplicated: three requests, one delivery -/
+example :
+    let body : Bytes := (List.range 100).map (fun i => UInt8.ofNat i)
+    let rsp (k m : Nat) : Resp := { blk := some (k, m, 1), payload := slice body 1 k, size2 := some 100, etag := some [5] }
+    runCrcv true 4 0 none [rsp 0 1, rsp 1 1, rsp 1 1, rsp 2 1, rsp 3 0] =
+      [.next 1 1, .next 2 1, .skip, .next 3 1, .body body 100] := by decide
+
+set_option maxRecDepth 100000 in
+/-- … and per-block mode hands over the four slices, the last one from inside with the lg_crcv released -/
+example :
+    let body : Bytes := (List.range 100).map (fun i => UInt8.ofNat i)
+    let rsp (k m : Nat) : Resp := { blk := some (k, m, 1), payload := slice body 1 k }
+    (runCrcv false 4 0 none [rsp 0 1, rsp 1 1, rsp 2 1, rsp 3 0]).map (fun o => match o with
+      | .block off p _ _ => some (off, p.length) | .last off p _ => some (off, p.length) | _ => none) =
+      [some (0, 32), some (32, 32), some (64, 32), some (96, 4)] := by decide
+
+/-- the hypothesis `Genuine2` is satisfiable along a whole run -/
+example :
+    let body : Bytes := (List.range 40).map (fun i => UInt8.ofNat i)
+    Genuine2 body none none { blk := some (0, 1, 0), payload := slice body 0 0 } 0 0 := by
+  refine ⟨by decide, by decide, rfl, rfl, by intro s hs; cases hs⟩
+
+set_option maxRecDepth 100000 in
+/-- WITNESS (excluded by `Genuine2`, outside the property's quantifier: a libcoap server refuses a changed SZX with 4.00):
+a server that switches from 16-byte to 32-byte blocks in mid-transfer makes the client deliver a 55-byte "body" whose
+bytes 16..31 were never written (`junk` = 0xEE here); the real function does the same (`crcv 1 55 7 55 0.1.0.0.42,…`). -/
+example :
+    let body : Bytes := (List.range 55).map (fun i => UInt8.ofNat i)
+    let rsp (k m szx : Nat) : Resp := { blk := some (k, m, szx), payload := slice body szx k, size2 := some 55 }
+    ((runCrcv true 4 0xEE none [rsp 0 1 0, rsp 2 1 0, rsp 1 0 1]).getLast?.map fun o => match o with
+      | .body d l => (l, d.take l == body, (d.drop 16).take 2) | _ => (0, false, [])) = some (55, false, [0xEE, 0xEE]) := by
+  decide
+
+set_option maxRecDepth 100000 in
+/-- WITNESS (excluded by the constant Size2 of `Genuine2`; unreachable with a client that asks for one block at a
+time from a libcoap server): an unrequested block 5 without Size2 followed by block 0 announcing Size2 = 100 shrinks
+the buffer from 97 to 16 bytes (coap_block_build_body is called with this response's Size2, not the running total) -/
+example :
+    let body : Bytes := (List.range 100).map (fun i => UInt8.ofNat i)
+    ((crcvStep true 4 0 (crcvStep true 4 0 (some {}) { blk := some (5, 1, 0), payload := slice body 0 5 }).1
+      { blk := some (0, 1, 0), payload := slice body 0 0, size2 := some 100 }).1.map fun s => (s.recv, s.body.map (·.length))) =
+      some ([(0, 0), (5, 5)], some 16) := by decide
 
 /-! non-vacuity: concrete instances of the hypotheses -/
 example : setupBlockB 64 6 3 6 5000 = some { num := 96, m := 1, szx := 1, aszx := 1, chunk := 32 } := by decide
